@@ -52,6 +52,8 @@ def reader_ops(n, key):
         ops += [("nth", n - 1), ("hint",), ("it", 1), ("nth", 1), ("hint",), ("it", -1)]
         # iterator adaptors (skip / take), also reaching beyond the last shape
         ops += [("seek", 0), ("skiptake", 1, 1), ("hint",), ("skiptake", n, 2), ("hint",), ("it", -1)]
+        # ... and on an iteration resumed in the middle (the adaptors count from where the reader stands)
+        ops += [("seek", 0), ("it", 1), ("skiptake", 0, 1), ("hint",), ("skiptake", 1, 1), ("hint",), ("it", -1)]
     return ops
 
 
@@ -71,6 +73,10 @@ def abstract_reader(n, ops):
             else:
                 out.append(("items", avail[:o[1]], 0))
                 nxt += o[1]
+        elif o[0] == "readall":
+            # `read` / `read_as`: everything from where the reader stands
+            out.append(("all", list(range(nxt, n))))
+            nxt = n
         elif o[0] == "skiptake":
             # iterator adaptors skip(k).take(j), j >= 1: pulls k + j items or until the end, keeps the last j
             avail = list(range(nxt, n))
@@ -102,6 +108,15 @@ def check_against_abstract(rd, ops, seq_items, n):
             items = got["items"]
             if [tuple(i) for i in items] != [tuple(seq_items[k]) for k in want[1]] or got["ended"] != want[2]:
                 return "iteration (op %r) yielded %d items (ended %r), expected records %r" % (o, len(items), got["ended"], want[1])
+        if want[0] == "all":
+            res = got["all"]
+            exp = [seq_items[k] for k in want[1]]
+            first_err = next((e for e in exp if e[0] != "ok"), None)
+            if first_err is not None:
+                if tuple(res) != tuple(first_err):
+                    return "bulk read returned %r, expected the first error %r" % (res[:4], first_err[:4])
+            elif res[0] != "ok" or [list(v) for v in res[1]] != [list(e[1]) for e in exp]:
+                return "bulk read (read / read_as) did not return records %r: %r" % (want[1], res[:2] if res[0] != "ok" else len(res[1]))
         if want[0] == "items_only":
             items = got["items"]
             if [tuple(i) for i in items] != [tuple(seq_items[k]) for k in want[1]]:
@@ -189,7 +204,7 @@ def run(rep, tier, rng):
                 rep.violation({"kind": "oracle", "what": msg, "case_kind": "read", "case": c[:3000], "ops": ops, "shapes": n})
     rep.sample({"type": files[0]["code"], "calls": files[0]["calls"], "reader_ops": reader_ops(len(files[0]["specs"]), 0)})
     rep.cov["oracle"] = {"files": len(files), "reader_histories": len(rcases), "failing": nfail}
-    path_pairs(rep, files[:(30 if tier == "thorough" else 8)])
+    path_pairs(rep, files[:(40 if tier == "thorough" else 12)])
     rep.assumptions += ["path-created .shp/.shx pairs go through BufWriter<File>: covered by the harness's path mode (files "
                         "re-read from disk and compared with the in-memory bytes), not by the theorem"]
 
@@ -197,26 +212,7 @@ def run(rep, tier, rng):
 def path_pairs(rep, files):
     """Path-created .shp/.shx pairs (ShapeWriter::from_path): the bytes on disk
     must equal the in-memory destinations' bytes."""
-    import os
-    import shutil
-    import subprocess
-    rel = os.path.join(sfv.TARGET, "debug", "runner")
-    tmp = os.path.join(sfv.CACHE, "tmp", "c04")
-    shutil.rmtree(tmp, ignore_errors=True)
-    os.makedirs(tmp, exist_ok=True)
-    n = 0
-    for k, f in enumerate(files):
-        if "special" in f["written"] or not f["specs"]:
-            continue
-        calls = [("w", s) for s in f["specs"]]
-        line = " ".join(str(x) for x in C.whist_case(True, 0, calls)[1:])
-        base = os.path.join(tmp, "f%d" % k)
-        p = subprocess.run([rel, "path", base + ".shp", "keep"], input=line + "\n", stdout=subprocess.PIPE, text=True, timeout=120)
-        disk_shp, disk_shx = open(base + ".shp", "rb").read(), open(base + ".shx", "rb").read()
-        if disk_shp != f["written"]["shp"]["buf"] or disk_shx != f["written"]["shx"]["buf"]:
-            rep.violation({"kind": "oracle", "what": "path-created .shp/.shx differ from the in-memory destinations' bytes",
-                           "file": f["specs"], "code": f["code"]})
-            return
-        n += 1
-    shutil.rmtree(tmp, ignore_errors=True)
-    rep.cov["path_created_pairs"] = n
+    # files created by path (ShapeWriter::from_path): fresh path, dotted name next to a sibling shapefile, path holding
+    # longer stale files, upper-case extension; bytes on disk == in-memory bytes, path-based readers == in-memory reads
+    P.path_situations(rep, files, "c04")
+    rep.cov["path_created_pairs"] = rep.cov.get("path_route_files", 0)
